@@ -6,6 +6,7 @@ from .. import modelrun, c16rig
 ASSUME = [
     "modelled: YowNetworkLayer (state, connected, dispatcher, reason), YowAuthenticationProtocolLayer, "
     "YowNoiseLayer.on_auth/on_disconnected (protocol state only), YowInterfaceLayer (reconnect), "
+    "AxolotlControlLayer's lifecycle part (passive login, set-keys upload, reboot), "
     "YowIqProtocolLayer + YowPingThread (thread, _pingQueue, registry), YowLayer/YowParallelLayer event "
     "propagation incl. detached delivery, YowStack's deferred queue; all real in the rig",
     "fake dispatcher with the contract of AsyncoreConnectionDispatcher (the default): connect() -> onConnecting(); "
@@ -16,8 +17,17 @@ ASSUME = [
     "WANoiseTransport over identity ciphers; handshake crypto and its worker thread belong to C04",
     "the ping thread is the real YowPingThread; time.sleep in protocol_iq.layer's namespace hands control to "
     "the driver, so one 'tick' = one interval elapsing for every ping thread; bytecode-level races are not modelled",
-    "AxolotlControlLayer (passive key upload + reboot reconnect) is not in the rig: PROP_PASSIVE is only the "
-    "flag carried by the auth/authed events and the login payload",
+    "the real AxolotlControlLayer is in the rig where YowStackBuilder.getDefaultLayers puts it (above the core layers, "
+    "below the protocol group) over a real YowProfile / AxolotlManager / SQLite store in the scratch directory "
+    "(COUNT_GEN_PREKEYS 12 >= THRESHOLD_REGEN so that no later CONNECTED generates again; store prepared with prekeys "
+    "never uploaded, or all marked sent); modelled of it: PROP_PASSIVE, _unsent_prekeys non-empty, store has unsent "
+    "keys, _reboot_connection, the set-keys iq of the current connection unanswered; the axolotl send/receive pair, "
+    "key-count notifications and message traffic are not in the rig (C14 / C17); of the control layer's state only the "
+    "public part is compared (stack property PROP_PASSIVE, manager.load_unsent_prekeys()), the rest through behaviour",
+    "the fake dispatcher completes a connect as a separate later event (dispatcher-connected), as in the property's "
+    "alphabet; the control layer and the interface layer call connect() synchronously inside the delivery of "
+    "DISCONNECTED, so with a dispatcher whose connect() completed synchronously the layers above could see the new "
+    "CONNECTED before the old DISCONNECTED - that dispatcher behaviour is outside the model and the rig",
     "domain: application connect requests only when no DISCONNECTED announcement is still queued "
     "(finding connect-before-deferred-disconnected); disconnect requests only while connecting/connected "
     "(property text); stanzas only on an up connection with a login exchange in progress",
@@ -29,11 +39,12 @@ ASSUME = [
 # history symbols: (tag, arg) as in C16Run.dec_event
 E_CONNECT_REQ, E_CONNECT_CALL, E_DISCONNECT_REQ, E_DISP_CONNECTED, E_SOCK_ERROR, E_PEER_CLOSE = 0, 1, 2, 3, 4, 5
 E_SUCCESS, E_FAILURE, E_STREAM_ERROR, E_PONG, E_TICK, E_APP_SEND, E_LOOP = 6, 7, 8, 9, 10, 11, 12
+E_KEYS_RESULT, E_KEYS_ERROR = 13, 14
 NAMES = {0: "connect_req", 1: "connect_call", 2: "disconnect_req", 3: "disp_connected", 4: "sock_error",
          5: "peer_close", 6: "success", 7: "failure", 8: "stream_error", 9: "pong", 10: "tick",
-         11: "app_send", 12: "loop"}
+         11: "app_send", 12: "loop", 13: "keys_result", 14: "keys_error"}
 ALPHABET = [(0, 0), (1, 0), (2, 0), (3, 0), (4, 0), (5, 0), (6, 0), (7, 0), (8, 0), (8, 1), (8, 2),
-            (9, 0), (9, 1), (10, 0), (11, 0), (12, 0)]
+            (9, 0), (9, 1), (10, 0), (11, 0), (12, 0), (13, 0), (14, 0)]
 
 KEY_DOUBLE_CONNECT = "connect-request-while-connecting-creates-second-dispatcher"
 KEY_DOWN_DISCONNECT = "disconnect-while-down-announces-disconnected-again"
@@ -64,41 +75,42 @@ def canon_model(obs):
 
 
 class Opts(object):
-    def __init__(self, reconnect, passive, ping, prop_set=True):
+    def __init__(self, reconnect, passive, ping, prop_set=True, unsent=False):
         self.reconnect, self.passive, self.ping, self.prop_set = reconnect, passive, ping, prop_set
+        self.unsent = unsent      # the profile's store holds one-time prekeys that were never uploaded
 
     def eff_reconnect(self):
         return self.reconnect if self.prop_set else True
 
     def cfg(self, fix_create, fix_destroy):
-        return [self.eff_reconnect(), self.passive, self.ping, fix_create, fix_destroy]
+        return [self.eff_reconnect(), self.passive, self.ping, fix_create, fix_destroy, self.unsent]
 
     def as_dict(self):
-        return {"reconnect": self.reconnect, "passive": self.passive, "ping": self.ping, "prop_set": self.prop_set}
+        return {"reconnect": self.reconnect, "passive": self.passive, "ping": self.ping, "prop_set": self.prop_set,
+                "unsent": self.unsent}
 
     @staticmethod
     def from_dict(d):
-        return Opts(d["reconnect"], d["passive"], d["ping"], d.get("prop_set", True))
+        return Opts(d["reconnect"], d["passive"], d["ping"], d.get("prop_set", True), d.get("unsent", False))
 
 
 def impl_state(rig):
-    """the state the property's anchors name + the rig's own dispatcher/queue bookkeeping"""
+    """the state the property's anchors name + the rig's own dispatcher/queue bookkeeping; of the control layer
+    only what is public: the stack property PROP_PASSIVE and whether the manager still has unsent prekeys"""
     d = rig.cur()
     phase = {"new": 0, "connecting": 1, "up": 2, "closed": 3}[d.phase] if d else 0
     orphans = sum(1 for x in rig.dispatchers[:-1] if x.phase in ("connecting", "up"))
     nz = {"init": 0, "handshake": 1, "transport": 2}.get(rig.noise_state(), 9)
-    iq = None
-    for s in rig.stack.getLayer(6).sublayers:
-        if type(s) is rig.m["YowIqProtocolLayer"]:
-            iq = s
     return {"ns": rig.net.state, "conn": 1 if rig.net.connected else 0, "dp": phase, "orphans": orphans,
-            "nz": nz, "recon": 1 if rig.iface.reconnect else 0, "pq": len(iq._pingQueue),
-            "dq": rig.queue.qsize()}
+            "nz": nz, "recon": 1 if rig.iface.reconnect else 0, "pq": len(rig.iq._pingQueue),
+            "dq": rig.queue.qsize(), "psv": 1 if rig.passive_prop() else 0,
+            "ud": 1 if rig.store_has_unsent() else 0,
+            "kp": 1 if rig.keys_pending is not None else 0}
 
 
 def model_state(st):
     return {"ns": st[0], "conn": st[1], "dp": st[2], "orphans": st[3], "nz": st[4], "recon": st[5],
-            "pq": st[7], "dq": st[8]}
+            "pq": st[7], "dq": st[8], "psv": st[9], "ud": st[10], "kp": st[11]}
 
 
 class Oracle(object):
@@ -112,6 +124,14 @@ class Oracle(object):
         self.auto_creates = 0           # connections the stack opened on its own (not at a connect request/call)
         self.recon_errors = 0           # stream errors that call for a reconnect (not a conflict, option on)
         self.down = None                # set by an event that ends the session for good, until the next connect request
+        # passive login path (axolotl control layer), from the options and the history only
+        self.passive = bool(opts.passive)   # what the next login is expected to announce
+        self.unsent = bool(opts.unsent)     # prekeys never confirmed by the server
+        self.to_upload = False              # this connection's login still has to upload them
+        self.expect_reboot = False          # the upload was confirmed: one disconnect + one reconnect, non-passive
+        self.reboots = 0
+        self.app_up = False                 # last announcement the application saw was CONNECTED
+        self.conn_pings, self.conn_answered = [], set()   # pings written on / answered on the current connection
         self.alive = False
         self.outstanding = None
         self.next_ping = 0
@@ -129,8 +149,24 @@ class Oracle(object):
         disp = per.get(c16rig.OBS_DISP, [])
         app = per.get(c16rig.OBS_APP, [])
         hs = per.get(c16rig.OBS_NOISE, [])
-        if per.get(c16rig.OBS_EXC):
+        if per.get(c16rig.OBS_EXC) and tag != E_KEYS_ERROR:
+            # (the control layer's reaction to an error reply is to raise "Sent keys were not accepted")
             self.bad("an exception escaped at %s" % NAMES[tag])
+        # --- a DISCONNECTED delivered by the loop reaches every layer, the application included
+        if tag == E_LOOP and any(it[0] == c16rig.EV_DISCONNECTED for it in probes[1]):
+            missing = [p for p in (2, 3) if not any(it[0] == c16rig.EV_DISCONNECTED for it in probes[p])]
+            if missing:
+                self.bad("DISCONNECTED was delivered up to the axolotl control layer but not to %s: the layers above "
+                         "were never told that the connection went down"
+                         % " and ".join({2: "the protocol layers (auth, iq)", 3: "the application"}[p]
+                                        for p in missing))
+        for who, item in obs:
+            if who == 3 and item[0] == c16rig.EV_CONNECTED:
+                if self.app_up:
+                    self.bad("the application saw CONNECTED twice with no DISCONNECTED in between")
+                self.app_up = True
+            elif who == 3 and item[0] == c16rig.EV_DISCONNECTED:
+                self.app_up = False
         # --- announcements: attempts at P0, same sequence (delayed by the queue) above
         for who, item in obs:
             if who == c16rig.OBS_DISP and item[0] == c16rig.D_CREATE:
@@ -158,12 +194,19 @@ class Oracle(object):
         n_conn = [sum(1 for it in probes[p] if it[0] == c16rig.EV_CONNECTED) for p in range(4)]
         n_auth = [sum(1 for it in probes[p] if it[0] == c16rig.EV_AUTH) for p in range(3)]
         n_authed = [sum(1 for it in probes[p] if it[0] == c16rig.EV_AUTHED) for p in range(3)]
-        pas = 1 if self.opts.passive else 0
+        if tag == E_DISP_CONNECTED:
+            if self.unsent:
+                # prekeys that were never confirmed: the login is passive and has to upload them
+                self.passive, self.to_upload = True, True
+            self.conn_pings, self.conn_answered = [], set()
+        pas = 1 if self.passive else 0
         if tag == E_DISP_CONNECTED:
             if n_conn != [1] * 4:
                 self.bad("CONNECTED seen %r times at P0..P3 for one connection" % (n_conn,))
-            if n_auth != [1] * 3 or hs != [[pas]]:
-                self.bad("login attempts for one connection: auth events %r, handshakes %r" % (n_auth, hs))
+            flags = sorted(set(it[1] for p in range(3) for it in probes[p] if it[0] == c16rig.EV_AUTH))
+            if n_auth != [1] * 3 or hs != [[pas]] or flags != [pas]:
+                self.bad("login attempts for one connection: auth events %r (passive flags %r), handshakes %r, "
+                         "expected one %s login" % (n_auth, flags, hs, "passive" if pas else "active"))
             if noise_before != "init":
                 self.bad("login started with noise state %r" % noise_before)
             if [it for it in disp if it[0] == c16rig.D_WRITE] != [[c16rig.D_WRITE, c16rig.W_HEADER, 0, 1]]:
@@ -171,13 +214,31 @@ class Oracle(object):
         elif any(n_conn) or any(n_auth) or hs:
             self.bad("CONNECTED / auth / handshake without a dispatcher-connected event")
         # --- authenticated announced once per success
+        key_writes = [it for it in disp if it[0] == c16rig.D_WRITE and it[1] == c16rig.W_KEYS]
         if tag == E_SUCCESS:
             if n_authed != [1] * 3 or app != [[c16rig.A_SUCCESS, 0]]:
                 self.bad("success: authed events %r, entities %r" % (n_authed, app))
+            want = 1 if (self.passive and self.to_upload) else 0
+            if len(key_writes) != want or any(it[3] != 1 for it in key_writes):
+                self.bad("success on a %s login with prekeys %s: %d set-keys upload(s) written"
+                         % ("passive" if self.passive else "active",
+                            "waiting" if self.to_upload else "not waiting", len(key_writes)))
+            self.to_upload = False
             if not self.alive and self.opts.ping:
                 self.alive, self.outstanding = True, None
-        elif any(n_authed):
-            self.bad("authed announced without a success")
+        else:
+            if any(n_authed):
+                self.bad("authed announced without a success")
+            if key_writes:
+                self.bad("a set-keys upload was written at %s" % NAMES[tag])
+        if tag == E_KEYS_RESULT:
+            # the server accepted the keys: the control layer closes the passive connection and reconnects
+            if [c16rig.D_DISCONNECT] not in disp or not any(it[0] == c16rig.EV_DISCONNECTED for it in probes[0]):
+                self.bad("the confirmed prekey upload did not close the passive connection")
+            if app:
+                self.bad("the reply to the set-keys iq reached the application: %r" % (app,))
+            self.unsent, self.expect_reboot = False, True
+            self.reboots += 1
         # --- failure / stream error delivered and closes
         if tag in (E_FAILURE, E_STREAM_ERROR):
             want = [c16rig.A_FAILURE, 0] if tag == E_FAILURE else [c16rig.A_STREAMERROR, arg]
@@ -205,18 +266,23 @@ class Oracle(object):
                                       else "")
         if tag == E_LOOP:
             if any(it[0] == c16rig.EV_DISCONNECTED for it in probes[3]):
-                if created != self.expect_reconnect:
+                want = self.expect_reconnect or self.expect_reboot
+                if created != want:
                     self.bad("automatic reconnect %s: the DISCONNECTED that reached the application %s a stream "
-                             "error calling for a reconnect, and the stack opened %d connection(s) on its own"
-                             % ("missing" if self.expect_reconnect else "unexpected",
-                                "followed" if self.expect_reconnect else "did not follow", n_created))
-                self.expect_reconnect = False
+                             "error calling for a reconnect or a confirmed prekey upload, and the stack opened %d "
+                             "connection(s) on its own"
+                             % ("missing" if want else "unexpected",
+                                "followed" if want else "did not follow", n_created))
+                if self.expect_reboot:
+                    self.passive = False       # the reboot exists to log in again with passive off
+                self.expect_reconnect = self.expect_reboot = False
         elif created and tag not in (E_CONNECT_REQ, E_CONNECT_CALL):
             self.bad("a connection was opened at %s" % NAMES[tag])
-        if self.auto_creates + (1 if self.expect_reconnect else 0) != self.recon_errors:
+        n_pending = (1 if self.expect_reconnect else 0) + (1 if self.expect_reboot else 0)
+        if self.auto_creates + n_pending != self.recon_errors + self.reboots:
             self.bad("the stack has opened %d connection(s) on its own (%d more pending) after %d stream error(s) "
-                     "that call for a reconnect" % (self.auto_creates, 1 if self.expect_reconnect else 0,
-                                                    self.recon_errors))
+                     "that call for a reconnect and %d confirmed prekey upload(s)"
+                     % (self.auto_creates, n_pending, self.recon_errors, self.reboots))
         if self.down is not None:
             if rig.net.state != 0 or self.mon != "idle" or created:
                 self.bad("after %s the stack must stay DISCONNECTED until the application asks for a connection, "
@@ -225,6 +291,19 @@ class Oracle(object):
                             " and a connection was opened" if created else ""))
         # --- keep-alive
         timeout = any(it == [c16rig.EV_DISCONNECT, c16rig.R_PING] for it in probes[3])
+        # ... per connection, from what was on the wire: the keep-alive may close a connection that is up only
+        # when a ping written on THAT connection (at an earlier tick) is still unanswered
+        if timeout and mon_before == "up":
+            open_pings = [i for i in self.conn_pings if i not in self.conn_answered]
+            if not open_pings:
+                self.bad("keep-alive closed a connection although every ping written on it was answered "
+                         "(pings on this connection: %r, answered: %r)"
+                         % (self.conn_pings, sorted(self.conn_answered)))
+        for it in disp:
+            if it[0] == c16rig.D_WRITE and it[1] == c16rig.W_PING and it[3] == 1:
+                self.conn_pings.append(it[2])
+        if tag == E_PONG and [c16rig.A_PONG, arg] in app:
+            self.conn_answered.add(arg)
         if tag == E_TICK and self.alive:
             if (self.outstanding is not None) != timeout:
                 self.bad("keep-alive: ping outstanding=%r but timeout disconnect=%r" % (self.outstanding, timeout))
@@ -243,7 +322,7 @@ def run_impl(mods, opts, hist, check_oracle=True):
     """run a history on the real layers; returns (steps, oracle_failure) with steps =
     [(enabled, canonical obs, state)]"""
     rig = c16rig.Rig(mods, reconnect_opt=opts.reconnect, passive=opts.passive, ping=opts.ping,
-                     reconnect_prop_set=opts.prop_set)
+                     reconnect_prop_set=opts.prop_set, unsent=opts.unsent)
     orc = Oracle(opts)
     steps = []
     try:
@@ -340,7 +419,7 @@ def gen_random(rng, n):
     h = []
     weights = [(E_CONNECT_REQ, 10), (E_CONNECT_CALL, 3), (E_DISCONNECT_REQ, 4), (E_DISP_CONNECTED, 12),
                (E_SOCK_ERROR, 3), (E_PEER_CLOSE, 4), (E_SUCCESS, 10), (E_FAILURE, 3), (E_STREAM_ERROR, 6),
-               (E_PONG, 8), (E_TICK, 14), (E_APP_SEND, 5), (E_LOOP, 12)]
+               (E_PONG, 8), (E_TICK, 14), (E_APP_SEND, 5), (E_LOOP, 12), (E_KEYS_RESULT, 6), (E_KEYS_ERROR, 2)]
     tags = [t for t, _ in weights]
     ws = [w for _, w in weights]
     npings = 0
@@ -394,9 +473,40 @@ def gen_reconnect_family(depth):
     return out
 
 
+def gen_passive_family(depth):
+    """the passive login path: connect, connected, success (the control layer uploads the prekeys), then up to
+    `depth` events while the upload is unanswered (ping ticks, pongs given or withheld, application data), then
+    the answer (result -> reboot, error, or none: peer close / socket error / stream error / disconnect request /
+    a second tick with the pong withheld), then the loop and what follows on the next connection (keep-alive with
+    and without pongs, a second session end)"""
+    mids = [[]]
+    mid_syms = [(E_TICK, 0), (E_PONG, 0), (E_PONG, 1), (E_APP_SEND, 0), (E_SUCCESS, 0)]
+    for d in range(1, depth + 1):
+        mids += [list(x) for x in itertools.product(mid_syms, repeat=d)]
+    answers = [[(E_KEYS_RESULT, 0)], [(E_KEYS_ERROR, 0)], [(E_KEYS_ERROR, 0), (E_PEER_CLOSE, 0)],
+               [(E_PEER_CLOSE, 0)], [(E_SOCK_ERROR, 0)], [(E_STREAM_ERROR, 1)], [(E_STREAM_ERROR, 0)],
+               [(E_DISCONNECT_REQ, 0)], [(E_FAILURE, 0)], [(E_KEYS_RESULT, 0), (E_TICK, 0)],
+               [(E_KEYS_RESULT, 0), (E_SOCK_ERROR, 0), (E_TICK, 0)]]
+    tails = [[(E_LOOP, 0), (E_DISP_CONNECTED, 0), (E_SUCCESS, 0), (E_TICK, 0), (E_PONG, 1), (E_PONG, 2), (E_TICK, 0),
+              (E_TICK, 0), (E_LOOP, 0)],
+             [(E_LOOP, 0), (E_DISP_CONNECTED, 0), (E_SUCCESS, 0), (E_TICK, 0), (E_TICK, 0), (E_LOOP, 0)],
+             [(E_LOOP, 0), (E_SOCK_ERROR, 0), (E_LOOP, 0), (E_CONNECT_REQ, 0), (E_DISP_CONNECTED, 0), (E_SUCCESS, 0),
+              (E_KEYS_RESULT, 0), (E_LOOP, 0), (E_DISP_CONNECTED, 0), (E_SUCCESS, 0), (E_TICK, 0)],
+             [(E_TICK, 0), (E_LOOP, 0), (E_CONNECT_REQ, 0), (E_DISP_CONNECTED, 0), (E_SUCCESS, 0), (E_TICK, 0),
+              (E_KEYS_RESULT, 0), (E_KEYS_ERROR, 0), (E_LOOP, 0), (E_DISP_CONNECTED, 0), (E_STREAM_ERROR, 2),
+              (E_LOOP, 0), (E_DISP_CONNECTED, 0), (E_SUCCESS, 0)]]
+    out = []
+    head = [(E_CONNECT_REQ, 0), (E_DISP_CONNECTED, 0), (E_SUCCESS, 0)]
+    for m in mids:
+        for a in answers:
+            for t in tails:
+                out.append(head + m + a + t)
+    return out
+
+
 EXT_ALPHABET = [(E_LOOP, 0), (E_SOCK_ERROR, 0), (E_DISCONNECT_REQ, 0), (E_DISP_CONNECTED, 0), (E_TICK, 0),
                 (E_SUCCESS, 0), (E_CONNECT_REQ, 0), (E_PEER_CLOSE, 0), (E_STREAM_ERROR, 1), (E_STREAM_ERROR, 0),
-                (E_FAILURE, 0), (E_APP_SEND, 0)]
+                (E_FAILURE, 0), (E_APP_SEND, 0), (E_KEYS_RESULT, 0), (E_KEYS_ERROR, 0)]
 
 
 def find_failing_extension(model, mods, opts, fixes, prefix, depth=3):
@@ -446,7 +556,7 @@ def run(ctx):
     ctx.prove()
     exe = ctx.build_model("C16")
     model = modelrun.Model(exe) if exe else None
-    mods = c16rig.load_repo_mods()
+    mods = c16rig.load_repo_mods(ctx.scratch)
     rng = ctx.rng
     fix_create, fix_destroy, partial = detect_fixes(mods)
     fixes = (fix_create, fix_destroy)
@@ -534,6 +644,8 @@ def run(ctx):
     # ---- 2. in-domain histories: exhaustive to a length, then random
     all_opts = [Opts(r, p, g, s) for r in (True, False) for p in (False, True) for g in (True, False)
                 for s in (True,)] + [Opts(False, False, True, False)]
+    all_opts += [Opts(True, False, True, True, True), Opts(True, True, True, True, True),
+                 Opts(False, False, True, True, True), Opts(True, False, False, True, True)]
     cases = []
     if model is not None:
         # reconnect bookkeeping: what happens to the automatic reconnect attempt, repeated failures, options
@@ -544,11 +656,22 @@ def run(ctx):
         for o in fam_opts:
             cases += [("reconnect", o, h) for h in fam]
         ctx.coverage["reconnect_family_histories"] = len(cases)
+        # passive login path through the axolotl control layer (prekeys never uploaded)
+        pfam = gen_passive_family(1 if ctx.tier == "quick" else 2)
+        pfam_opts = [Opts(True, False, True, True, True), Opts(False, True, True, True, True)]
+        if ctx.tier != "quick":
+            pfam_opts += [Opts(True, False, False, True, True), Opts(True, True, True, False, True)]
+        n0 = len(cases)
+        for o in pfam_opts:
+            cases += [("passive", o, h) for h in pfam]
+        ctx.coverage["passive_family_histories"] = len(cases) - n0
         n_fam = len(cases)
         exh_len = 4 if ctx.tier == "quick" else 5
         o = Opts(True, False, True)
         hs = enumerate_domain(model, o.cfg(*fixes), exh_len)
         cases += [("exh", o, h) for h in hs]
+        ou = Opts(True, False, True, True, True)
+        cases += [("exh", ou, h) for h in enumerate_domain(model, ou.cfg(*fixes), exh_len)]
         if ctx.tier == "thorough":
             o2 = Opts(False, True, True)
             cases += [("exh", o2, h) for h in enumerate_domain(model, o2.cfg(*fixes), 4)]
@@ -570,7 +693,7 @@ def run(ctx):
         for (kind, o, h), ms in zip(cases, filt):
             kept = [h[m[0]] for m in ms]
             key = (tuple(kept), tuple(sorted(o.as_dict().items())))
-            if key in distinct and kind in ("rand", "reconnect"):
+            if key in distinct and kind in ("rand", "reconnect", "passive"):
                 continue
             impl, ofail = run_impl(mods, o, kept)
             evals += 1
@@ -610,9 +733,15 @@ def run(ctx):
              "domain predicate; reconnect family (stream error of each kind, then every sequence of up to 2 quick / 3 "
              "thorough outcomes of the following connection attempts: socket error / peer close / disconnect request "
              "while CONNECTING, failing again, conflict, login failure, application reconnect; option on / off / "
-             "unset), exhaustive over the 16-symbol alphabet up to the stated length, seeded random "
+             "unset), passive-login family (prekeys never uploaded: connect, connected, success = upload, up to 1 "
+             "quick / 2 thorough events while it is unanswered - ticks, pongs given or withheld, data, a second "
+             "success -, then result / error / no answer with peer close, socket error, stream error, disconnect "
+             "request, failure, result followed by a tick, then the loop and keep-alive with and without pongs on "
+             "the next connection, a failing reboot attempt, a second passive round), "
+             "exhaustive over the 18-symbol alphabet up to the stated length (without and with unsent prekeys), seeded random "
              "histories of 6..40 candidate events over all option combinations, scripted multi-session runs; "
-             "every step's observations (per observer: 4 probes, dispatcher calls, handshake starts, application "
+             "every step's observations (per observer: 4 probes of which P2/P3 are above the axolotl control layer, "
+             "dispatcher calls incl. the set-keys upload, handshake starts, application "
              "entities, escaped exceptions) and state are compared with the extracted model; non-trivial = "
              "distinct (options, history) in which a connection came up",
         assumptions_text=ASSUME)
@@ -623,7 +752,7 @@ def replay(ctx, data):
     if "history" not in case:
         print("nothing to replay:", json.dumps(case)[:400])
         return 1
-    mods = c16rig.load_repo_mods()
+    mods = c16rig.load_repo_mods(ctx.scratch)
     opts = Opts.from_dict(case["options"])
     hist = hist_from_json(case["history"])
     fixes = tuple(detect_fixes(mods)[:2])
